@@ -55,7 +55,9 @@ type Op struct {
 	// The log may refuse such a request; when it answers, the answer is judged for the decimal value.
 	Pad int
 	// Fault > 0 (reads, sequential runs): the backend fails the RPC of this read once with a transient error
-	// (1 Unavailable, 2 DeadlineExceeded, 3 ResourceExhausted, 4 Internal, 5 a plain error); the read may fail,
+	// (1 Unavailable, 2 DeadlineExceeded, 3 ResourceExhausted, 4 Internal, 5 a plain error) - or, for reads of
+	// entries from a log with external chain storage, 6 / 7: the chain storage fails its first / second read of
+	// the request (plain error / deadline-class error); the read may fail,
 	// but may not lie; the same read is then repeated against the recovered backend and judged as always.
 	Fault int
 }
@@ -128,7 +130,7 @@ func genOps(t *rapid.T, n int, label string) []Op {
 				last.Pad = rapid.IntRange(1, 5).Draw(t, "pad")
 			}
 			if rapid.IntRange(0, 7).Draw(t, "faulted") == 0 {
-				last.Fault = rapid.IntRange(1, 5).Draw(t, "fault")
+				last.Fault = rapid.IntRange(1, 7).Draw(t, "fault")
 			}
 		}
 	}
@@ -152,6 +154,17 @@ func gen(t *rapid.T) Case {
 		}
 	}
 	genProcessOptions(t, &c)
+	if c.Indirect {
+		// reads of entries from a log with external chain storage often meet a failing storage read
+		for i := range c.Ops {
+			if k := c.Ops[i].Kind; (k == "entries" || k == "eap") && rapid.IntRange(0, 2).Draw(t, "storagefault") == 0 {
+				c.Ops[i].Fault = rapid.IntRange(6, 7).Draw(t, "sf")
+				if k == "entries" && c.Ops[i].B == 0 {
+					c.Ops[i].B = 2
+				}
+			}
+		}
+	}
 	if rapid.IntRange(0, 3).Draw(t, "sameissuer") == 0 {
 		// every submission of the history is issued by the same CA (their stored chains are one and the same),
 		// and the ranges read are long
@@ -237,6 +250,7 @@ type run struct {
 	// lc2 talks to a second log instance with ANOTHER key over the same backend (two logs in one process
 	// whose tree heads are byte-identical): each must serve STHs under its own key
 	lc2 *client.LogClient
+	store *memstore.Store // the first log's chain storage (external chain storage only)
 	// be3 / inst3: a further log with its own backend and chain storage (TwinStore)
 	be3   *reflog.Log
 	inst3 *ctfex.Instance
@@ -268,7 +282,8 @@ func newRun(t *testing.T, v *harness.Verdict, c Case) *run {
 		v.Class(fmt.Sprintf("klog-v=%d", c.Verbosity))
 	}
 	if c.Indirect {
-		o.ChainStorage = memstore.New()
+		r.store = memstore.New()
+		o.ChainStorage = r.store
 		v.Class("external-chain-storage")
 	}
 	inst, err := ctfex.New(o)
@@ -438,7 +453,28 @@ func verifyDS(pub crypto.PublicKey, ds ct.DigitallySigned, msg []byte) error {
 var rpcOfRead = map[string]string{"cons": "GetConsistencyProof", "proof": "GetInclusionProofByHash", "entries": "GetLeavesByRange", "eap": "GetEntryAndProof"}
 
 func (r *run) exec(ctx context.Context, op Op, concurrent bool) {
-	if rpc := rpcOfRead[op.Kind]; op.Fault > 0 && rpc != "" && !concurrent && !r.parallel {
+	if op.Fault >= 6 && (r.store == nil || (op.Kind != "entries" && op.Kind != "eap")) {
+		op.Fault = 1 + op.Fault%5
+	}
+	if op.Fault >= 6 && !concurrent && !r.parallel {
+		_, base := r.store.Calls()
+		ferr := []error{errors.New("chain storage: injected"), fmt.Errorf("chain storage: %w", context.DeadlineExceeded)}[op.Fault-6]
+		r.store.FailGet = func(n int) error {
+			if n == base+(op.Fault-6) {
+				return ferr
+			}
+			return nil
+		}
+		faulted := op
+		faulted.Fault = 0
+		r.faulty = true
+		r.exec(ctx, faulted, false)
+		r.faulty = false
+		r.store.FailGet = nil
+		r.class("read-under-chain-storage-fault")
+		op.Fault = 0
+	}
+	if rpc := rpcOfRead[op.Kind]; op.Fault > 0 && op.Fault < 6 && rpc != "" && !concurrent && !r.parallel {
 		errs := []error{status.Error(codes.Unavailable, "injected"), status.Error(codes.DeadlineExceeded, "injected"), status.Error(codes.ResourceExhausted, "injected"), status.Error(codes.Internal, "injected"), errors.New("injected")}
 		fired := false
 		r.be.Intercept = func(c reflog.Call) (proto.Message, error, bool) {
